@@ -34,7 +34,7 @@ META = dict(
     need=["cl_value", "cl_gradient", "cl_metric", "cl_at_residuals", "cl_constants_minimise",
           "re_value_grad", "re_metric", "re_constants_reduced", "re_constants_minimise", "re_at"],
     quick=dict(cases=900, workers=8, budget_s=75),
-    thorough=dict(cases=40000, workers=16, budget_s=780),
+    thorough=dict(cases=20000, workers=16, budget_s=780),
     design_ref="DESIGN.md §5 C19",
     level_text=("every generated case compares value, gradient and dense metric of the live KL object "
                 "with an independent average; exploration of models x key splits x sample lists"),
